@@ -53,6 +53,37 @@ def asserted_on(fn, local):
     return None
 
 
+def check_resume_result(rep, rid, core, fns):
+    """the bridge runs the core after a response only when resume() accepted it: Core::process is reachable from the resume call only
+    along the Ok edge of `?` on its result, so every rejection (unknown id, spent one-shot, finished stream, undecodable payload) is
+    returned to the shell as an error"""
+    from rules.common import Summaries
+    sm0 = Summaries([core])
+    rs_sites = [(f, bb, t) for f in fns for bb, t in f.calls('crux_core::bridge::registry::ResolveRegistry::resume')]
+    ok = len(rs_sites) == 1
+    if ok:
+        f, rb, rt = rs_sites[0]
+        pr = sm0.sites(f, ['crux_core::core::Core::process'], 'may')
+        ok = False
+        branch = [(bb, t) for bb, t in f.calls('core::ops::try_trait::Try::branch')
+                  if any(o.kind == 'call' and o.bb == rb for o in origins(f, t['args'][0]))]
+        if branch and pr:
+            res_l = branch[0][1]['d']['l']
+            for sb, st in f.terms('switch'):
+                if any(o.kind == 'rvalue' and o.stmt['rv']['k'] == 'discr' and o.stmt['rv']['a']['l'] == res_l for o in origins(f, st['a'])):
+                    cont = None
+                    for v, b in st['arms']:
+                        if v == 0:
+                            cont = (sb, b)
+                    if cont and all(p_ not in f.reachable([rb], removed_edges=[cont]) for p_ in pr):
+                        ok = True
+        elif not pr:
+            # the function returns the result of resume; the caller must run the core only on Ok — not modelled: fail closed
+            ok = False
+    rep.expect(rid, ok, 'process-after-ok-resume', 'Core::process is reachable from resume only along the Ok edge of `?`',
+               'the bridge runs the core although resume returned an error')
+
+
 def check(ctx, rep):
     rep.rule('R12.a', 'every boundary error is propagated, never unwrapped, asserted on or discarded', floor=5)
     rep.rule('R12.b', 'malformed input is rejected before the core is touched', floor=2)
@@ -94,29 +125,7 @@ def check(ctx, rep):
                                for o in src)
     rep.expect('R12.b', ok, 'event-is-ok-payload', 'process_event receives `deserialize(data).map_err(..)?`',
                'the bridge hands the core an event that is not the Ok payload of the deserialisation')
-    rs_sites = [(f, bb, t) for f in fns for bb, t in f.calls('crux_core::bridge::registry::ResolveRegistry::resume')]
-    ok = len(rs_sites) == 1
-    if ok:
-        f, rb, rt = rs_sites[0]
-        pr = sm0.sites(f, ['crux_core::core::Core::process'], 'may')
-        ok = False
-        branch = [(bb, t) for bb, t in f.calls('core::ops::try_trait::Try::branch')
-                  if any(o.kind == 'call' and o.bb == rb for o in origins(f, t['args'][0]))]
-        if branch and pr:
-            res_l = branch[0][1]['d']['l']
-            for sb, st in f.terms('switch'):
-                if any(o.kind == 'rvalue' and o.stmt['rv']['k'] == 'discr' and o.stmt['rv']['a']['l'] == res_l for o in origins(f, st['a'])):
-                    cont = None
-                    for v, b in st['arms']:
-                        if v == 0:
-                            cont = (sb, b)
-                    if cont and all(p_ not in f.reachable([rb], removed_edges=[cont]) for p_ in pr):
-                        ok = True
-        elif not pr:
-            # the function returns the result of resume; the caller must run the core only on Ok — not modelled: fail closed
-            ok = False
-    rep.expect('R12.b', ok, 'process-after-ok-resume', 'Core::process is reachable from resume only along the Ok edge of `?`',
-               'the bridge runs the core although resume returned an error')
+    check_resume_result(rep, 'R12.b', core, fns)
     # R12.f: no input-caused rejection after the core has been entered
     rep.rule('R12.f', 'an error that blames the input (DeserializeEvent / DeserializeOutput / ProcessResponse) is only produced before the core is entered', floor=3)
     from rules.common import Summaries
